@@ -78,8 +78,8 @@ Ltac split_one :=
       end
   end.
 Ltac split_ifs :=
-  repeat (cbn; unfold write_and_log, serve_lookup; cbn; split_one);
-  cbn; unfold write_and_log, serve_lookup; cbn.
+  repeat (cbn; unfold write_and_log, serve_lookup; cbn; rewrite ?N.eqb_refl; split_one);
+  cbn; unfold write_and_log, serve_lookup; cbn; rewrite ?N.eqb_refl.
 
 Ltac open_serve q :=
   destruct q as [rok dobit qt eok pok loc con cst iaerr ns auth dserr dsauth nf rf uok sa werr];
@@ -107,7 +107,7 @@ Qed.
 Lemma serve_type_other : forall q t, t <> q_qtype q -> cnt (KType t) (o_incs (serve q)) = 0%nat.
 Proof.
   intros q t Ht. open_serve q; cbn [q_qtype] in Ht; apply N.eqb_neq in Ht;
-    unfold loc_counter; split_ifs; cbn; rewrite ?Ht; reflexivity.
+    split_ifs; cbn; rewrite ?Ht; try reflexivity; try discriminate.
 Qed.
 
 (* never twice: no counter is incremented more than once per query *)
